@@ -173,6 +173,12 @@ func Replay(i int, raw []byte) child.Result {
 	if err := json.Unmarshal(raw, &sc); err != nil {
 		return child.Inconclusive(fmt.Errorf("scenario %d: %v", i, err))
 	}
+	// (derived from the scenario's text, not from its position: a replay file reproduces it)
+	mode := 0
+	for _, b := range raw {
+		mode = (mode*31 + int(b)) % 3001
+	}
+	mode %= 3
 	u, err := SmallUniverse(sc.FB)
 	if err != nil {
 		return child.Inconclusive(fmt.Errorf("scenario %d: %v", i, err))
@@ -215,7 +221,36 @@ func Replay(i int, raw []byte) child.Result {
 			}
 			return fail(k, op, kind, map[string]interface{}{"error": opErr.Error()})
 		}
-		for id := 1; id <= n; id++ {
+		// which members are asked after the step, and in which order, rotates with the scenario: all in order, all
+		// in reverse, or ONLY the operand of the nearest add (a lookup cache must not survive an add or a flush)
+		var probe []int
+		switch mode {
+		case 0:
+			for id := 1; id <= n; id++ {
+				probe = append(probe, id)
+			}
+		case 1:
+			for id := n; id >= 1; id-- {
+				probe = append(probe, id)
+			}
+		default:
+			h := 0
+			for j := k + 1; j < len(sc.Steps) && h == 0; j++ {
+				if opName(sc.Steps[j].Op, n) == "add" {
+					h = sc.Steps[j].Op
+				}
+			}
+			for j := k; j >= 0 && h == 0; j-- {
+				if opName(sc.Steps[j].Op, n) == "add" {
+					h = sc.Steps[j].Op
+				}
+			}
+			if h == 0 {
+				h = 1 + (mode+k)%n
+			}
+			probe = []int{h}
+		}
+		for _, id := range probe {
 			got, err, pan := sut.Has(u.Hash(id))
 			if err != nil {
 				kind := "has-error"
